@@ -224,6 +224,36 @@ pub fn run(scenario: &str, input: &Value) -> Option<(bool, Value)> {
             });
             Some((ok, obs))
         }
+        // C15: a Rust value survives to_term/from_term and to_bytes/from_bytes
+        "serde_roundtrip" => {
+            let ty = input["type"].as_str().unwrap();
+            macro_rules! rt { ($t:ty, $v:expr) => {{
+                let v: $t = $v;
+                let term_rt = erltf_serde::to_term(&v).ok().and_then(|t| erltf_serde::from_term::<$t>(&t).ok());
+                let wire_rt = erltf_serde::to_bytes(&v).ok().and_then(|b| erltf_serde::from_bytes::<$t>(&b).ok());
+                (term_rt == Some(v.clone()) && wire_rt == Some(v.clone()), json!({"term_trip": format!("{:?}", term_rt), "wire_trip": format!("{:?}", wire_rt)}))
+            }}; }
+            let n = input.get("value");
+            let r = match ty {
+                "i64" => rt!(i64, i(n.unwrap())),
+                "i32" => rt!(i32, i(n.unwrap()) as i32),
+                "i16" => rt!(i16, i(n.unwrap()) as i16),
+                "i8" => rt!(i8, i(n.unwrap()) as i8),
+                "u64" => rt!(u64, n.unwrap().as_u64().or_else(|| n.unwrap().as_str().and_then(|s| s.parse().ok())).unwrap()),
+                "u32" => rt!(u32, i(n.unwrap()) as u32),
+                "u16" => rt!(u16, i(n.unwrap()) as u16),
+                "u8" => rt!(u8, i(n.unwrap()) as u8),
+                "char" => rt!(char, char::from_u32(i(n.unwrap()) as u32).unwrap()),
+                "bool" => rt!(bool, i(n.unwrap()) != 0),
+                "f64" => rt!(f64, f64::from_bits(n.unwrap().as_u64().or_else(|| n.unwrap().as_str().and_then(|s| s.parse().ok())).unwrap())),
+                "string" => rt!(String, n.unwrap().as_str().unwrap().to_string()),
+                "opt_i64" => rt!(Option<i64>, if n.unwrap().is_null() { None } else { Some(i(n.unwrap())) }),
+                "vec_i64" => rt!(Vec<i64>, n.unwrap().as_array().unwrap().iter().map(i).collect()),
+                "unit" => rt!((), ()),
+                _ => return None,
+            };
+            Some(r)
+        }
         // C09: fragments numbered N..1 (header = N, carrying the start of the data) reassemble to the original bytes
         "fragments" => {
             use edp_client::fragmentation::FragmentAssembler;
